@@ -338,7 +338,10 @@ var c19Yaml11 = map[string]bool{"y": true, "Y": true, "yes": true, "Yes": true, 
 var c19RetypedWords = []string{"123", "-7", "0", "true", "false", "null", "~", "1.5", "1e3", "+1", "True", "NULL"}
 // patterns of the RE2 / ECMA-262 common subset, incl. non-capturing groups, optional literal parentheses,
 // escaped metacharacters, alternation and a quote: `pattern` is published verbatim whatever it contains
-var c19Patterns = []string{"^[a-z]+$", "^[0-9]{3}$", "^a.*b$", "^(?:[A-Z]{2}-)?[0-9]{4}$", `^\(?[0-9]{3}\)?[0-9]{4}$`, "^(a|b)+$", `^\d+\.\d+$`, `^"q"$`, "^[^/]+$"}
+var c19Patterns = []string{"^[a-z]+$", "^[0-9]{3}$", "^a.*b$", "^(?:[A-Z]{2}-)?[0-9]{4}$", `^\(?[0-9]{3}\)?[0-9]{4}$`, "^(a|b)+$", `^\d+\.\d+$`, `^"q"$`, "^[^/]+$",
+	// not anchored at one end or at either: `pattern` is a SEARCH on both sides (protovalidate's `matches`, JSON Schema's
+	// `pattern`), so the text is published as it stands
+	"[0-9]", "^[A-Z]{2}", `\.pdf$`, "ab+c"}
 var c19Formats = []string{"email", "uuid", "uri", "hostname", "ip", "ipv4", "ipv6"}
 var c19FloatPool = []string{"0", "0.5", "-2.25", "0.1", "1", "100", "1e21", "1e-7", "3.4028235e38", "16777216", "-0.3", "2.5", "1e10", "-1e6"}
 
